@@ -113,7 +113,7 @@ fn strategy() -> impl Strategy<Value = Case> {
         })
 }
 
-const RULE: &str = "generator: initial state = (nothing installed | a version installed with all four files or a subset) x (no backup | a backup, possibly stale or partial) x a package with generated file contents and modes (the executable is a shell script answering --version followed by arbitrary bytes; data files are arbitrary bytes incl. empty), then 1-8 commands from {backup, install, restore (the command line always deletes the backup afterwards: its delete_backup value cannot be given), uninstall service, uninstall package, purge, repackage (the package content changes between installs; in 30% of the cases the new data files have the same lengths as the installed ones and other content)}; each command is the REAL setup binary run chroot'ed in an overlay over '/'. oracle: an in-memory model of the four system paths, the backup folder and the package (bytes and modes) compared after every command; the overlay's upper directory is diffed around every command and every changed path must be one of the four system paths, the backup folder or the tool's log; the stand-in systemctl's call log must be the expected sequence, 'stop' seeing the pre-command hashes and 'start' the post-command hashes. non-trivial: sequence containing backup -> install of different content -> restore, or a restore without a backup, or an install over a partially present version; distinct by hash of the case.";
+const RULE: &str = "generator: initial state = (nothing installed | a version installed with all four files or a subset) x (no backup | a backup, possibly stale or partial) x a package with generated file contents and modes (the executable is a shell script answering --version followed by arbitrary bytes; data files are arbitrary bytes incl. empty), bystander files of other owners next to each of the four system files (e.g. /usr/lib/azure-proxy-agent/package/ProxyAgentExt), then 1-8 commands from {backup, install, restore (the command line always deletes the backup afterwards: its delete_backup value cannot be given), uninstall service, uninstall package, purge, repackage (the package content changes between installs; in 30% of the cases the new data files have the same lengths as the installed ones and other content)}; each command is the REAL setup binary run chroot'ed in an overlay over '/'. oracle: an in-memory model of the four system paths, the backup folder and the package (bytes and modes) compared after every command; the overlay's upper directory is diffed around every command and every changed path must be one of the four system paths, the backup folder or the tool's log; the stand-in systemctl's call log must be the expected sequence, 'stop' seeing the pre-command hashes and 'start' the post-command hashes. non-trivial: sequence containing backup -> install of different content -> restore, or a restore without a backup, or an install over a partially present version; distinct by hash of the case.";
 
 fn cstr(s: &str) -> CString {
     CString::new(s).unwrap()
@@ -402,6 +402,17 @@ fn eval(tool: &Path, case: &Case, stats: &mut Stats) -> Outcome {
         }
     }
     write_package(&o, &mut m, &case.package);
+    // bystanders: other people's files in the folders the tool works in (the distro payload lives under
+    // /usr/lib/azure-proxy-agent/package); no command may touch them
+    for (rel, content) in [
+        ("usr/lib/azure-proxy-agent/package/ProxyAgentExt", "payload"),
+        ("usr/lib/azure-proxy-agent/NOTICE", "notice"),
+        ("etc/azure/other-agent.json", "{}"),
+        ("usr/lib/systemd/system/other-agent.service", "[Unit]\n"),
+        ("usr/sbin/other-agent-tool", "#!/bin/sh\n"),
+    ] {
+        o.put(rel, &(content.as_bytes().to_vec(), 0o644));
+    }
     let full_install = case.installed.as_ref().map(|(_, mask)| *mask == 15);
     let asserted_domain = full_install != Some(false); // partial installs: only containment and no crash are asserted
     if !asserted_domain {
